@@ -392,10 +392,194 @@ def r14_11(prog, tab):
     return r
 
 
+# ------------------------------------------------------------------------------------------ R14.12 / R14.13
+ALLOCS = ("malloc", "calloc")
+
+
+def _alloc_rhs(t):
+    """the rhs is an allocation, directly or through a chained assignment (`st->buf = buf = MALLOC(n)`)"""
+    t = strip_casts(t)
+    while isinstance(t, list) and t and t[0] == "bin" and t[1] == "=":
+        t = strip_casts(t[3])
+    return isinstance(t, list) and t and t[0] == "call" and t[2] in ALLOCS
+
+
+def _buf_sites(f):
+    for b, i, e in f.events("assign"):
+        lt = strip_casts(e.get("lhs_tree"))
+        if not (isinstance(lt, list) and lt and lt[0] == "member" and lt[2] == "buf" and lt[3] and is_var(lt[1])):
+            continue
+        if e.get("op") != "=" or "rhs" not in e:
+            continue
+        yield b, i, e, lt
+
+
+def r14_12(prog, tab, summ=None):
+    """Decoding over a structure that already holds a value does not leak the old value.  Every `X->buf = <allocation>`
+    where X may be a structure handed in by the caller (not one allocated on this path) is reached only after the old
+    buffer was released (free(X->buf)), X->buf was seen to be NULL, or X was zeroed/allocated on the way."""
+    r = Rule("R14.12", "a value buffer of a caller-provided structure is replaced by a new allocation only after the old buffer was released (or seen to be NULL)", floor=5)
+    summ = summ or ownership.Summaries(prog, tab)
+    exc = {(x["rule"], x["function"], x["key"]): x["reason"] for x in tab.get("exceptions", [])}
+    for f in sorted(prog.funcs.values(), key=lambda f: f.key):
+        if common.is_random_fill(prog, f):
+            continue
+        n = 0
+        for b, i, e, lt in _buf_sites(f):
+            rt = strip_casts(e["rhs"]["tree"])
+            is_alloc = _alloc_rhs(rt)
+            if not is_alloc:
+                continue
+            xid = strip_casts(lt[1])[1]
+            ltxt = tree_text(lt)
+            n += 1
+            key = "%s=alloc#%d" % (ltxt, n)
+            # blocks that settle the matter: free(X->buf), X->buf = <anything> earlier, X = fresh allocation, memset(X)
+            settle = set()
+            for b2, i2, y in f.events():
+                if (b2.id, i2) == (b.id, i):
+                    continue
+                hit = False
+                if y["k"] == "call":
+                    for aj in summ.releases(y):
+                        if aj < len(y["args"]) and tree_text(strip_casts(y["args"][aj]["tree"])) == ltxt:
+                            hit = True
+                    if y.get("callee") == "memset" and y["args"] and is_var(y["args"][0]["tree"], xid):
+                        hit = True
+                elif y["k"] == "assign" and y.get("op") == "=" and y.get("lhs_tree") is not None:
+                    l2 = strip_casts(y["lhs_tree"])
+                    if tree_text(l2) == ltxt and "rhs" in y and const_of(y["rhs"]["tree"]) == 0:
+                        hit = True
+                    if is_var(l2, xid) and "rhs" in y and _alloc_rhs(y["rhs"]["tree"]):
+                        hit = True
+                elif y["k"] == "decl" and y.get("id") == xid and "init" in y and _alloc_rhs(y["init"]["tree"]):
+                    hit = True
+                if hit and not (b2.id == b.id and i2 > i):
+                    settle.add(b2.id)
+            same_block_before = any(True for b2, i2, y in f.events() if b2.id == b.id and i2 < i and b2.id in settle)
+            if b.id in settle and not same_block_before:
+                settle.discard(b.id)
+            # edges on which X->buf is known to be NULL
+            dead = guards.edges_given(f, lambda t, ltxt=ltxt: isinstance(t, list) and guards.canon(t) == ltxt, "nonzero")
+            if same_block_before:
+                pth = None
+            else:
+                pth = guards.reach_path(f, f.entry, b.id, dead, stop_blocks=settle)
+                if pth is not None and any(x in settle for x in pth[:-1]):
+                    pth = None
+            ek = ("R14.12", f.name, key)
+            if pth is None:
+                r.ok(f, key, "reached only after the old buffer was released, found NULL, or the structure was allocated/zeroed here", e["line"])
+            elif ek in exc:
+                r.exc(f, key, exc[ek], e["line"])
+            else:
+                r.bad(f, key, "`%s` is overwritten with a new allocation on a path where the structure may already hold a buffer (decoding over "
+                              "a previous value without a reset): the old buffer is lost" % ltxt, e["line"], witness={"path": guards.path_lines(f, pth)})
+    return r
+
+
+def r14_13(prog, tab, summ=None):
+    """A structure that comes out of a failed allocation is still a structure: `buf == NULL` goes with `size == 0`
+    (der_encode_primitive asserts it; INTEGER_encode_oer, the printers and comparators read buf[0..size)).  For every
+    `X->buf = <allocation>` whose result is tested: if the size field may be non-zero at that point (it was assigned
+    something other than 0, or the old buffer was just freed), then on every path along the NULL edge to a return the
+    size is set to 0, or the structure itself is released or zeroed."""
+    r = Rule("R14.13", "when the allocation of a value buffer fails, the structure is left with size 0 (or is released)", floor=5)
+    summ = summ or ownership.Summaries(prog, tab)
+    for f in sorted(prog.funcs.values(), key=lambda f: f.key):
+        if common.is_random_fill(prog, f):
+            continue
+        n = 0
+        for b, i, e, lt in _buf_sites(f):
+            rt = strip_casts(e["rhs"]["tree"])
+            if not _alloc_rhs(rt):
+                continue
+            xid = strip_casts(lt[1])[1]
+            ltxt = tree_text(lt)
+            stxt = tree_text(["member", lt[1], "size", True, lt[4]])
+            aliases = set()
+            t = rt
+            while isinstance(t, list) and t and t[0] == "bin" and t[1] == "=":
+                if is_var(t[2]):
+                    aliases.add(strip_casts(t[2])[1])
+                t = strip_casts(t[3])
+
+            def subj(t, ltxt=ltxt, aliases=aliases):
+                return isinstance(t, list) and (guards.canon(t) == ltxt or (is_var(t) and strip_casts(t)[1] in aliases))
+            dead = guards.edges_given(f, subj, "zero")
+            if not dead:
+                continue                  # the result is never tested: R14.1's business
+            n += 1
+            key = "%s=alloc#%d" % (ltxt, n)
+
+            def classify(y, ltxt=ltxt, stxt=stxt, xid=xid):
+                """'zero' / 'stale' / None for an event, as to what it says about X->size"""
+                if y["k"] == "assign" and y.get("lhs_tree") is not None:
+                    l2 = strip_casts(y["lhs_tree"])
+                    if tree_text(l2) == stxt:
+                        return "zero" if (y.get("op") == "=" and "rhs" in y and const_of(y["rhs"]["tree"]) == 0) else "stale"
+                    if is_var(l2, xid) and y.get("op") == "=" and "rhs" in y and _alloc_rhs(y["rhs"]["tree"]):
+                        return "zero"
+                if y["k"] == "decl" and y.get("id") == xid and "init" in y and _alloc_rhs(y["init"]["tree"]):
+                    return "zero"
+                if y["k"] == "call":
+                    if y.get("callee") == "memset" and y["args"] and is_var(y["args"][0]["tree"], xid):
+                        return "zero"
+                    for aj in summ.releases(y):
+                        if aj < len(y["args"]):
+                            at = strip_casts(y["args"][aj]["tree"])
+                            if tree_text(at) == ltxt:
+                                return "stale"          # the old buffer is gone, the old size is still there
+                            if is_var(at, xid):
+                                return "zero"           # the structure itself is gone
+                return None
+            # backwards: what may the size be when the allocation is made?
+            stale = False
+            seen = set()
+            st_ = [(b.id, i)]
+            while st_ and not stale:
+                bid, upto = st_.pop()
+                blk = f.blocks[bid]
+                evs = blk.ev[:upto] if upto is not None else blk.ev
+                verdict = None
+                for y in reversed(evs):
+                    verdict = classify(y)
+                    if verdict:
+                        break
+                if verdict == "stale":
+                    stale = True
+                elif verdict is None:
+                    for p_ in blk.preds:
+                        if p_ not in seen:
+                            seen.add(p_)
+                            st_.append((p_, None))
+            if not stale:
+                r.ok(f, key, "the size field is 0 (or untouched since entry, with the buffer NULL) when the allocation is attempted", e["line"])
+                continue
+            # forwards along the NULL edge
+            bad = None
+            if not any(classify(y) == "zero" for y in b.ev[i + 1:]):
+                settle = {bb.id for bb in f.blocks.values() if any(classify(y) == "zero" for y in bb.ev)}
+                for rb, ri, re_ in f.returns():
+                    if rb.id in settle and any(classify(y) == "zero" for y in rb.ev[:ri]):
+                        continue
+                    pth = guards.reach_path(f, b.id, rb.id, dead, stop_blocks=settle - {b.id})
+                    if pth is not None and not any(x in settle for x in pth[1:]):
+                        bad = (re_, pth)
+                        break
+            if bad is None:
+                r.ok(f, key, "on the NULL edge every return is preceded by `%s = 0` (or the release of the structure)" % stxt, e["line"])
+            else:
+                r.bad(f, key, "when this allocation fails the function returns at line %s with `%s` NULL and `%s` still non-zero: the next "
+                              "encoder, printer or comparison reads `size` bytes from a NULL buffer (or trips assert(st->buf || st->size == 0))" % (
+                                  bad[0].get("line"), ltxt, stxt), e["line"], witness={"path": guards.path_lines(f, bad[1])})
+    return r
+
+
 def run(ctx):
     prog = ctx.prog("S")
     tab = load_tables("c14")
-    return r14_1_2_5(prog, tab) + [r14_3(prog, tab), r14_4(prog, tab), r14_6(prog, tab), r14_7(prog, tab), r14_8(prog, tab), r14_9(prog, tab), r14_10(prog, tab), r14_11(prog, tab)]
+    return r14_1_2_5(prog, tab) + [r14_3(prog, tab), r14_4(prog, tab), r14_6(prog, tab), r14_7(prog, tab), r14_8(prog, tab), r14_9(prog, tab), r14_10(prog, tab), r14_11(prog, tab), r14_12(prog, tab), r14_13(prog, tab)]
 
 
 def thorough(ctx):
